@@ -16,6 +16,9 @@ def l_c01_order(c1: Converter, c2: Converter, u: str):
     b = c2.parse_uri(u, return_none=True)
     assert (a is None) == (b is None)
     if a is not None:
+        # stepping stones: each matched key is registered in the other converter too, hence not longer than the other's longest
+        assert len(a[1]) <= len(b[1])
+        assert len(b[1]) <= len(a[1])
         assert a[1] == b[1]
         assert a[0] == b[0]
     assert a == b
@@ -23,6 +26,9 @@ def l_c01_order(c1: Converter, c2: Converter, u: str):
     x = c1.compress(u)
     y = c2.compress(u)
     assert (x is None) == (y is None)
+    if a is not None:
+        assert x == c1.format_curie(a[0], a[1])
+        assert y == c2.format_curie(b[0], b[1])
     assert x == y
 
 
